@@ -109,6 +109,19 @@ func sysEW(prop string, r *rng, emit func(string)) {
 					}
 				}
 			case "C11":
+				if la == "rm" {
+					// one-element tensors against an EQUAL scalar (the length-one special cases of the
+					// scalar forms call the converse kernel: <= vs <, >= vs > differ only on equality)
+					for _, op := range cmpOps {
+						for _, same := range []string{"bool", "same"} {
+							for _, side := range []string{"left", "right"} {
+								for _, one := range []string{"1", "1,1"} {
+									emit(fmt.Sprintf("prog %s new:rm:%s:4;cmps:%s:0:4:%s:%s:safe", dt, one, op, side, same))
+								}
+							}
+						}
+					}
+				}
 				for _, op := range cmpOps {
 					for _, same := range []string{"bool", "same"} {
 						var p pb
@@ -128,14 +141,21 @@ func sysEW(prop string, r *rng, emit func(string)) {
 					}
 				}
 			case "C12":
-				for _, op := range append(append([]string{}, unOps...), "clamp.0.2", "apply.neg", "apply.square", "apply.abs") {
+				ops12 := append(append([]string{}, unOps...), "clamp.0.2", "apply.neg", "apply.square", "apply.abs")
+				if dt == "f64" || dt == "f32" {
+					ops12 = append(ops12, "sqrt") // on perfect squares (the operand is squared in place first)
+				}
+				for _, op := range ops12 {
 					for _, mode := range []string{"safe", "unsafe", "reuse", "incr"} {
-						if mode != "safe" && !strings.HasPrefix(op, "clamp") && !strings.HasPrefix(op, "apply") && op != "neg" {
+						if mode != "safe" && !strings.HasPrefix(op, "clamp") && !strings.HasPrefix(op, "apply") && op != "neg" && op != "sqrt" {
 							continue // the option modes of the generated unary operations share one template
 						}
 						var p pb
 						preA, ia := source(r, la, sh, -2)
 						a := p.add(preA, ia)
+						if op == "sqrt" {
+							p.ops = append(p.ops, fmt.Sprintf("un:square:%d:unsafe", a))
+						}
 						m := mode
 						if mode == "reuse" || mode == "incr" {
 							preR, ir := source(r, "rm", sh, 40)
